@@ -159,6 +159,12 @@ let run_trie_ops (prefix : string) (v : variant) (built : trie) (ops : string li
     | ["IDP"; s] -> hop "idp" (HDefPrefix (n_of_string s))
     | ["IDR"; s] -> hop "idr" (HDefPred (n_of_string s))
     | ["N"; s] -> hop "n" (HNext (n_of_string s))
+    | ["NI"; s] ->    (* same abstract step; the keyword is not printed *)
+      (match hstep v { h_trie = !cur; h_slots = !slots_ref; h_bufs = !bufs_ref } (HNext (n_of_string s)) with
+       | Ok (st, o) ->
+         cur := st.h_trie; slots_ref := st.h_slots; bufs_ref := st.h_bufs;
+         (match o with ONext (Some (i, _)) -> pr' "ni 1 %s" (string_of_n i) | _ -> pr' "ni 0")
+       | r -> pr' "ni %s" (exc_or_fault r))
     | ["G"; s] -> hop "g" (HRead (n_of_string s))
     | ["DI"; b; i] -> hop "di" (HDecodeInto (n_of_string b, n_of_string i))
     | ["MV"] -> hop "mv" HMove
@@ -212,7 +218,8 @@ let split_keys body =
 let build_max = (try int_of_string (Sys.getenv "XMODEL_BUILD_MAX") with _ -> 30000)
 let do_build (c : case) v bin keys =
   match Hashtbl.find_opt impl_files c.id with
-  | Some hex when List.length keys > build_max && spec_ok keys ->
+  | Some hex when (List.length keys > build_max
+                   || List.exists (fun k -> List.compare_length_with k 400 > 0) keys && List.length keys > 1) && spec_ok keys ->
     pr "@big parsed-from-implementation-file";
     load v (bytes_of_hex hex)
   | Some hex -> build v (match table_of_file hex with Some t -> t | None -> own_table keys) keys bin
